@@ -25,6 +25,8 @@ func c15(p *core.Prog, r *core.Report) {
 	r.Rule("C15-R2", "E6 provenance", 5, "heap index back-pointers maintained")
 	r.Rule("C15-R3", "E6 paths", 4, "selection restores the heap")
 	r.Rule("C15-R4", "constants/guards", 4, "score tiers and the no-peers condition")
+	r.Rule("C15-R5", "E6 shape/paths", 6, "heap order is (score, order) ascending; score changes are stored and re-heapified")
+	c15Order(p, r)
 
 	mapF := p.Field("", "PeerList", "peersByHostPort")
 	if f := mustFunc(p, r, "", "PeerList", "Add"); f != nil {
@@ -614,4 +616,134 @@ func insertAfterLockedMiss(p *core.Prog, f *ssa.Function, mapF *types.Var, recv,
 		}, false)
 	})
 	return
+}
+
+// c15Order: the heap is ordered by score, then by order stamp, both
+// ascending, and a score change reaches the heap: the list's updatePeer stores
+// the new score before calling Fix, onPeerChange recomputes the score with the
+// list's calculator and applies it under the write lock, and the channel-level
+// updatePeer reaches the root list and every isolated sub-channel list.
+func c15Order(p *core.Prog, r *core.Report) {
+	if f := mustFunc(p, r, "", "peerHeap", "Less"); f != nil {
+		// operand: load of field fld of *(&ph.peerScores[idx]) with idx == param k
+		side := func(v ssa.Value) (string, int) {
+			ld, ok := v.(*ssa.UnOp)
+			if !ok {
+				return "", -1
+			}
+			fa, ok := ld.X.(*ssa.FieldAddr)
+			if !ok {
+				return "", -1
+			}
+			el, ok := fa.X.(*ssa.UnOp)
+			if !ok {
+				return "", -1
+			}
+			ia, ok := el.X.(*ssa.IndexAddr)
+			if !ok {
+				return "", -1
+			}
+			for k, prm := range f.Params {
+				if ia.Index == ssa.Value(prm) {
+					return core.FieldOfAddr(fa).Name(), k
+				}
+			}
+			return "", -1
+		}
+		var eq *ssa.BinOp
+		lt := map[string]*ssa.BinOp{}
+		bad := ""
+		core.EachInstr(f, func(i ssa.Instruction) {
+			bo, ok := i.(*ssa.BinOp)
+			if !ok {
+				return
+			}
+			fx, kx := side(bo.X)
+			fy, ky := side(bo.Y)
+			if fx == "" || fx != fy {
+				return
+			}
+			switch bo.Op {
+			case token.EQL:
+				if fx == "score" {
+					eq = bo
+				}
+			case token.LSS:
+				if kx == 1 && ky == 2 {
+					lt[fx] = bo
+				} else {
+					bad = "comparison of " + fx + " has its operands reversed (max-heap)"
+				}
+			default:
+				bad = "unexpected comparison " + bo.Op.String() + " on " + fx
+			}
+		})
+		ok := eq != nil && lt["score"] != nil && lt["order"] != nil && bad == ""
+		if ok {
+			// order is compared only under equal scores; scores otherwise
+			fo := factsAt(lt["order"].Block())
+			fsx := factsAt(lt["score"].Block())
+			ok = fo.hasBool(func(v ssa.Value) bool { return v == ssa.Value(eq) }, true) && fsx.hasBool(func(v ssa.Value) bool { return v == ssa.Value(eq) }, false)
+			if !ok {
+				bad = "the tie-break on order is not taken exactly when the scores are equal"
+			}
+		} else if bad == "" {
+			bad = "Less does not compare score and order of elements i and j"
+		}
+		r.Check(ok, "C15-R5", fname(f), "Less(i,j) = score[i] < score[j], ties by order[i] < order[j]", p.Pos(f.Pos()), "lexicographic ascending (score, order)", bad)
+	}
+	scoreF := p.Field("", "peerScore", "score")
+	if f := mustFunc(p, r, "", "PeerList", "updatePeer"); f != nil {
+		var st *ssa.Store
+		core.EachInstr(f, func(i ssa.Instruction) {
+			if s2, ok := i.(*ssa.Store); ok && core.AddrField(s2.Addr) == scoreF && s2.Val == ssa.Value(f.Params[2]) {
+				st = s2
+			}
+		})
+		fix := core.CallsIn(f, "peerHeap.updatePeer")
+		ok := st != nil && len(fix) == 1 && before(st, fix[0]) && core.CallArgs(fix[0])[1] == ssa.Value(f.Params[1])
+		how := "the new score is not stored before the heap is fixed for that element"
+		if ok {
+			// no return after the store avoids the fix
+			res := core.ReachAvoiding(f, st, core.IsReturn, func(i ssa.Instruction) bool { return i == fix[0].(ssa.Instruction) }, nil)
+			if res.Found {
+				ok, how = false, "the score can be stored without re-heapifying"
+			}
+		}
+		r.Check(ok, "C15-R5", fname(f), "ps.score = newScore, then heap.Fix for ps", p.Pos(f.Pos()), "store precedes peerHeap.updatePeer(ps) on every path", how)
+	}
+	if f := mustFunc(p, r, "", "peerHeap", "updatePeer"); f != nil {
+		ok := false
+		idxF := p.Field("", "peerScore", "index")
+		for _, c := range core.CallsIn(f, "container/heap.Fix") {
+			if core.LoadedField(core.CallArgs(c)[1]) == idxF {
+				ok = true
+			}
+		}
+		r.Check(ok && onEveryPath(f, "container/heap.Fix"), "C15-R5", fname(f), "heap.Fix(ph, ps.index)", p.Pos(f.Pos()), "element's own index", "a changed score does not move the element")
+	}
+	if f := mustFunc(p, r, "", "PeerList", "onPeerChange"); f != nil {
+		ok, how := false, "onPeerChange does not apply GetScore(peer) through updatePeer under the write lock"
+		mu := p.Field("", "PeerList", "RWMutex")
+		locks := p.ComputeLocks()
+		for _, c := range core.CallsIn(f, "PeerList.updatePeer") {
+			a := core.CallArgs(c)
+			if cr, isC := a[2].(*ssa.Call); isC && cr.Call.IsInvoke() && cr.Call.Method.Name() == "GetScore" {
+				if mu != nil && locks.At(c.(ssa.Instruction))[mu] == core.WHeld {
+					ok = true
+				} else {
+					how = "updatePeer is called without the list's write lock"
+				}
+			}
+		}
+		r.Check(ok, "C15-R5", fname(f), "new score = calculator.GetScore(peer), applied under the write lock", p.Pos(f.Pos()), "updatePeer(ps, GetScore(ps.Peer)) with the lock held", how)
+	}
+	if f := mustFunc(p, r, "", "Channel", "updatePeer"); f != nil {
+		ok := onEveryPath(f, "PeerList.onPeerChange") && onEveryPath(f, "subChannelMap.updatePeer")
+		r.Check(ok, "C15-R5", fname(f), "root list and isolated sub-channel lists are told", p.Pos(f.Pos()), "peers.onPeerChange(p) and subChannels.updatePeer(p) on every path", "a status change does not reach the root list or the sub-channel lists: stale scores")
+	}
+	if f := mustFunc(p, r, "", "subChannelMap", "updatePeer"); f != nil {
+		ok := len(core.CallsIn(f, "PeerList.onPeerChange")) == 1
+		r.Check(ok, "C15-R5", fname(f), "isolated sub-channel lists re-score the peer", p.Pos(f.Pos()), "Peers().onPeerChange(p) in the loop", "isolated sub-channel lists keep stale scores")
+	}
 }
